@@ -30,6 +30,12 @@ REVIEWED = {
 }
 
 
+def _shape(e):
+    """the expression with the names of variables blanked out (`(len(v1) Sub 1)` and `(len(segments) Sub 1)` are one shape)"""
+    import re
+    return re.sub(r"\b[A-Za-z_][A-Za-z0-9_.]*\b(?!\()", lambda m: m.group(0) if m.group(0) in ("Add", "Sub", "Mul", "Div") else "_", e)
+
+
 def _expr(b, defs, op, depth=0):
     if op.get("k") == "const":
         return str(op.get("text") or op.get("bits")).split("_")[0]
@@ -86,7 +92,7 @@ def run(F, scopes=None):
             iid = "range|%s|%s..%s" % (root, lo, hi)
             why = None
             for (fn, rlo, rhi), w in REVIEWED.items():
-                if root.endswith(fn) and rlo == lo and rhi == hi:
+                if root.endswith(fn) and _shape(rlo) == _shape(lo) and _shape(rhi) == _shape(hi):
                     why = w
             if why:
                 r.inst(iid, st.get("span", b.file_line()), "exempt", reason=why)
